@@ -30,6 +30,7 @@ PATTERNS = {
     "^(ab|cd)*$": (True, "(RStar (RAlt %s %s))" % (_lit("ab"), _lit("cd")), True),
     "x+y?": (False, "(RSeq (RPlus (RChar 120)) (ROpt (RChar 121)))", False),
     "^[A-Z][a-z]*$": (True, "(RSeq %s (RStar %s))" % (_cls("A", "Z"), _cls("a", "z")), True),
+    "^[0-9]+%$": (True, "(RSeq (RPlus %s) (RChar 37))" % _cls("0", "9"), True),
 }
 # for each pattern: strings that match / do not match, by length
 PAT_SAMPLES = {
@@ -41,6 +42,7 @@ PAT_SAMPLES = {
     "^(ab|cd)*$": (["", "ab", "cd", "abcd", "cdab", "ababcd", "abcdabcd"], ["a", "abc", "abd", "abcda", "ab cd", "abcdab1"]),
     "x+y?": (["x", "xy", "axb", "xxxy", "--x--", "aaaxxy", "abcdefx"], ["y", "ay", "abc", "abcd", "yyyyy", "abcdef", "abcdefg"]),
     "^[A-Z][a-z]*$": (["A", "Ab", "Abc", "Abcd", "Abcde", "Abcdef", "Abcdefg"], ["a", "aB", "ABc", "Abc1", "Ab de", "abcdef", "AbcdefG"]),
+    "^[0-9]+%$": (["5%", "50%", "100%", "1234%", "12345%", "123456%"], ["%", "5", "5%%", "a5%", "50 %", "%%%%%%", "1234567"]),
 }
 
 FMT = {"date-time": "FDateTime", "date": "FDate", "time": "FTime", "ipv4": "FIP", "ipv6": "FIP"}
@@ -412,7 +414,7 @@ class Docs:
             cur[path[-1]] = value
         return d
 
-    OTHER = {"string": [1, True, [], {}], "integer": ["1", True, [], {}, 1.5], "number": ["1", True, [], {}],
+    OTHER = {"null": [1, "x", True, [], {}], "string": [1, True, [], {}], "integer": ["1", True, [], {}, 1.5], "number": ["1", True, [], {}],
              "boolean": ["true", 1, [], {}], "array": ["x", 1, True, {}], "object": ["x", 1, True, []]}
 
     def mutants(self, doc, classes=None):
@@ -435,7 +437,9 @@ class Docs:
             if not path:
                 pass
             # wrong JSON type / null
-            if t in self.OTHER and "enum" not in s and v is not None:
+            if t is None and ts == ["null"]:
+                t = "null"
+            if t in self.OTHER and "enum" not in s and (v is not None or t == "null"):
                 for w in self.OTHER[t]:
                     out.append(("type", path, self.put(doc, path, w)))
                 if "null" in ts:
@@ -503,7 +507,7 @@ class Case:
     """One schema (root + $defs in one file), options, and documents: [{'doc': json value, 'cls': tag, 'path': ...}]."""
 
     def __init__(self, cid, schema, docs, minsized=False, only_models=False, caps=None, extra_imports=False, wire="json", fam="",
-                 extra_files=None, no_model=False, resolve_ext=None):
+                 extra_files=None, no_model=False, resolve_ext=None, argv=None, mappings=None):
         self.cid = cid
         self.schema = schema
         self.docs = docs
@@ -516,6 +520,8 @@ class Case:
         self.extra_files = extra_files or {}      # other schema files of the case: relative path -> text
         self.no_model = no_model                  # outside the Coq model (cross-file references): implementation-only observations
         self.resolve_ext = resolve_ext or []
+        self.argv = argv or ["s.json"]
+        self.mappings = mappings                  # [(id, root type name)]: all in the case's package and file
         # filled by run_cases
         self.gen_ok = None
         self.build_ok = None
@@ -527,10 +533,11 @@ class Case:
     def cfg(self):
         return {"min_sized_ints": self.minsized, "only_models": self.only_models, "capitalizations": self.caps, "tags": ["json", "yaml", "mapstructure"],
                 "extra_imports": self.extra_imports, "resolve_extensions": self.resolve_ext,
-                "mappings": [{"id": self.schema.get("$id", ""), "root": "Root", "package": self.cid, "output": self.cid + "/gen.go"}]}
+                "mappings": ([{"id": i, "root": r, "package": self.cid, "output": self.cid + "/gen.go"} for i, r in self.mappings] if self.mappings else
+                             [{"id": self.schema.get("$id", ""), "root": "Root", "package": self.cid, "output": self.cid + "/gen.go"}])}
 
     def replay_obj(self, di=None):
-        o = {"kind": "kitchen", "cfg": self.cfg(), "files": dict({"s.json": json.dumps(self.schema)}, **self.extra_files), "argv": ["s.json"], "family": self.fam}
+        o = {"kind": "kitchen", "cfg": self.cfg(), "files": dict({"s.json": json.dumps(self.schema)}, **self.extra_files), "argv": self.argv, "family": self.fam}
         if di is not None:
             d = self.docs[di]
             o.update({"doc": json.dumps(d["doc"]), "class": d.get("cls"), "path": list(d.get("path", ())), "impl": d.get("obs"),
@@ -546,7 +553,7 @@ def run_cases(ctx, cases, name, rows_fn=None, chunk=40):
     for c in cases:
         jobs = [{"t": d.get("t", "Root"), "doc": d["raw"] if "raw" in d else json.dumps(d["doc"]), "wire": d.get("wire", c.wire), "prior": d.get("prior", "")}
                 for d in c.docs]
-        c.batch_case = b.add({"id": c.cid, "cfg": c.cfg(), "files": dict({"s.json": json.dumps(c.schema)}, **c.extra_files), "argv": ["s.json"], "jobs": jobs})
+        c.batch_case = b.add({"id": c.cid, "cfg": c.cfg(), "files": dict({"s.json": json.dumps(c.schema)}, **c.extra_files), "argv": c.argv, "jobs": jobs})
     b.run()
     names = set()
     for c in cases:
